@@ -1,11 +1,27 @@
 #!/bin/sh
-# Builds the framework offline from files on disk: Rust harness (against /repo) and every Lean module + driver.
-set -e
+# Builds the framework offline from files on disk: the Rust harness (against /repo) and, for every
+# property claimed in MANIFEST.json, its Lean theorem modules and model driver.  A property whose
+# Lean build fails here is reported by its own check (exit 2); it must not stop the others.
 cd "$(dirname "$0")"
 export CARGO_NET_OFFLINE=true
 mkdir -p .cache evidence replays
 [ -f harness/Cargo.lock ] || cp /repo/Cargo.lock harness/Cargo.lock
-(cd harness && cargo build --offline)
-DRIVERS=$(python3 tools/gen_lake.py --list-drivers)
-(cd lean && lake build RsassModel $DRIVERS)
+(cd harness && cargo build --offline) || { echo "setup: harness build failed"; exit 1; }
+python3 tools/gen_lake.py
+TARGETS=$(python3 - <<'PY'
+import importlib, json, sys
+sys.path.insert(0, ".")
+out = []
+for c in json.load(open("MANIFEST.json"))["checks"]:
+    try:
+        m = importlib.import_module("props." + c["property_id"])
+    except Exception as e:
+        continue
+    out += list(getattr(m, "THEOREM_MODS", []))
+    if getattr(m, "DRIVER", None):
+        out.append(m.DRIVER)
+print(" ".join(dict.fromkeys(out)))
+PY
+)
+(cd lean && lake build $TARGETS) || echo "setup: some Lean targets failed to build (their checks will report it)"
 echo setup done
